@@ -58,6 +58,36 @@ Definition cheap (o:sopts) (g:gcon) : res bool := let! c := get_cost one (gc_cos
 (* the shared head of the per-vehicle loop body *)
 Inductive strat := SGreedy | SBalanced.
 
+(* the strategy-specific part of the per-vehicle loop body: the battery after this step, the average power drawn,
+   and whether supporting stationary-battery power was counted *)
+Definition vehicle_charge (s:strat) (o:sopts) (v:veh) (cs:cstation) (left av:T) (ch:bool) : res (@bat T * T * bool) :=
+  let delta := vh_desired v - soc (vh_bat v) in
+  let clampv (p:T) := clamp_power p (cs_cur cs) (cs_maxp cs) (cs_minp cs) (vh_minp v) in
+  match s with
+  | SGreedy =>
+     if ch then let! (b', a, _) := load (vh_bat v) (so_hours o) (Some (clampv left)) TNone in Ok (b', a, false)
+     else if so_eps o <? delta then
+       let! en := ndiv (delta * cap (vh_bat v)) (eff (vh_bat v)) in
+       let pn := en * so_tsph o in
+       let p := clampv (nmin pn (left + av)) in
+       let! (b', a, _) := load (vh_bat v) (so_hours o) None (TPower p) in Ok (b', a, true)
+     else Ok (vh_bat v, zero, false)
+  | SBalanced =>
+     let! (p, used) :=
+       (if ch then Ok (clampv left, false)
+        else if so_eps o <? delta then
+          match vh_etd v with None => Err TypeErr | Some etd =>
+            let dt := (etd - so_now o)%Z in
+            let steps := (- (dt / - so_interval o))%Z in
+            let! en := ndiv (delta * cap (vh_bat v)) (eff (vh_bat v)) in
+            if (0 <? steps)%Z then
+              let! q := ndiv (en * so_tsph o) (nofQ (inject_Z steps)) in
+              Ok (clampv (nmin q left), true)
+            else Ok (clampv left, true) end
+        else Ok (zero, false)) in
+     let! (b', a, _) := load (vh_bat v) (so_hours o) None (TPower p) in Ok (b', a, used)
+  end.
+
 Definition vehicle_step (s:strat) (o:sopts) (st:sworld * list (string*T) * list (string*T)) (vid:string)
   : res (sworld * list (string*T) * list (string*T)) :=
   let '(w, cmds, avail) := st in
@@ -67,35 +97,9 @@ Definition vehicle_step (s:strat) (o:sopts) (st:sworld * list (string*T) * list 
   let gcid := cs_parent cs in
   let! g := get gcid (sw_gcs w) in
   let left := gc_cur g - current_load g in
-  let delta := vh_desired v - soc (vh_bat v) in
   let! ch := cheap o g in
-  let clampv (p:T) := clamp_power p (cs_cur cs) (cs_maxp cs) (cs_minp cs) (vh_minp v) in
   let! av := get gcid avail in
-  let! (b', avg, used) :=
-    (match s with
-     | SGreedy =>
-        if ch then let! (b', a, _) := load (vh_bat v) (so_hours o) (Some (clampv left)) TNone in Ok (b', a, false)
-        else if so_eps o <? delta then
-          let! en := ndiv (delta * cap (vh_bat v)) (eff (vh_bat v)) in
-          let pn := en * so_tsph o in
-          let p := clampv (nmin pn (left + av)) in
-          let! (b', a, _) := load (vh_bat v) (so_hours o) None (TPower p) in Ok (b', a, true)
-        else Ok (vh_bat v, zero, false)
-     | SBalanced =>
-        let! (p, used) :=
-          (if ch then Ok (clampv left, false)
-           else if so_eps o <? delta then
-             match vh_etd v with None => Err TypeErr | Some etd =>
-               let dt := (etd - so_now o)%Z in
-               let steps := (- (dt / - so_interval o))%Z in
-               let! en := ndiv (delta * cap (vh_bat v)) (eff (vh_bat v)) in
-               if (0 <? steps)%Z then
-                 let! q := ndiv (en * so_tsph o) (nofQ (inject_Z steps)) in
-                 Ok (clampv (nmin q left), true)
-               else Ok (clampv left, true) end
-           else Ok (zero, false)) in
-        let! (b', a, _) := load (vh_bat v) (so_hours o) None (TPower p) in Ok (b', a, used)
-     end) in
+  let! (b', avg, used) := vehicle_charge s o v cs left av ch in
   let '(g', nv) := add_load g csid avg in
   let w1 := set_gc (set_veh w vid (with_bat v b')) gcid g' in
   let w2 := set_cs w1 csid (with_cur cs (cs_cur cs + avg)) in
